@@ -94,6 +94,59 @@ class C07:
             return coll.emit(coll.normalise(c["sc"]))
         return dict(kind="text", S=one(), others=[one() for _ in range(rng.randint(1, 5))])
 
+    def gen_carry_case(self, rng):
+        """state carried from one run to the next through the builder's seed: run 1 records an early-ticking writer under a key, run 2
+        (a fresh executor whose GlobalState is seeded with run 1's final state) records another writer - one that first ticks late,
+        or never - under the SAME key. Run 2's recording must be what it is when run 1 recorded under some other key."""
+        import coll
+        shape = rng.choice(("TS", "TS", "TSS", "TSD", "TSL", "TSB"))
+        end0 = rng.choice((6, 10))
+        a = coll.gen_writer(rng, 1, shape, end0)
+        b = coll.gen_writer(rng, 2, shape, end0)
+        for w in (a, b):
+            for off in w["script"]:
+                w["script"][off] = [o for o in w["script"][off] if o[0] != "inv"] or [["d", coll.jd(coll.gen_delta(coll.SHAPES[shape], coll.fresh(coll.SHAPES[shape]), rng))]]
+        last_a = max(int(t) for t in a["script"])
+        r = rng.random()
+        if r < 0.2:
+            b["script"] = {}                                   # the second run's output never ticks
+        else:
+            shift = rng.choice((0, 0, last_a, last_a + 1, last_a + 3))    # ... or first ticks before / at / beyond the end of run 1's recording
+            b["script"] = {int(t) + shift: ops for t, ops in b["script"].items()}
+        end = max([end0] + [t + 1 for t in b["script"]]) + 1
+        a["run"], b["run"] = 0, 1
+        sc = dict(window=(0, end), runs=2, writers=[a, b], probes=[], cons=[], mirrors=[], replays=[],
+                  records=[dict(key="K", src=1, run=0), dict(key="K", src=2, run=1)])
+        return dict(kind="carry", sc=sc)
+
+    def run_carry(self, case, fresh):
+        import coll
+        sc = coll.normalise(case["sc"])
+        if len(sc["writers"]) < 2 or len(sc["records"]) < 2:
+            return Outcome(stats={}, nontrivial=False)
+        text = coll.emit(sc)
+        alt = copy.deepcopy(sc)
+        alt["records"][0]["key"] = "K0"
+        text_alt = coll.emit(alt)
+        run = (lambda t: runner.run_fresh(t, san=self.san)) if fresh else (lambda t: runner.run(t, san=self.san))
+        r1, r2 = run(text), run(text_alt)
+        for r in (r1, r2):
+            if not r.ok:
+                return Outcome(harness_error="harness status=%s signal=%s timeout=%s" % (r.status, r.signal, r.timeout), sample=text)
+        def buf(res):
+            return [e["v"] for e in res.events if e["k"] == "buf" and e["r"] == 1 and e["key"] == "K"]
+        b1, b2 = buf(r1), buf(r2)
+        v = None
+        if b1 != b2:
+            v = ("state_carried_between_runs", "second run recorded %s under key K after the first run had recorded under the same key; with the first run recording under another key it records %s" % (
+                json.dumps(b1)[:300], json.dumps(b2)[:300]))
+        last_a = max([int(t) for t in sc["writers"][0]["script"]] or [0])
+        first_b = min([int(t) for t in sc["writers"][1]["script"]] or [10 ** 9])
+        stats = dict(variations=1, carry_cases=1, probe_second_run_ticks_beyond_first_recording=1 if first_b > last_a else 0,
+                     probe_second_run_never_ticks=1 if first_b == 10 ** 9 else 0, faults_fired={"F7_process_history": 1})
+        return Outcome(violation=dict(clause=v[0], detail=v[1]) if v else None, stats=stats, digest=r1.digest, nontrivial=True,
+                       sample=dict(scenario=text[:1500]), shape=runner.h64(text))
+
     def run_text(self, case, fresh):
         text = case["S"]
         ref = runner.run_fresh(text, san=self.san)
@@ -123,6 +176,8 @@ class C07:
 
     def gen(self, seed):
         rng = random.Random(seed)
+        if random.Random(seed ^ 0xCA77).random() < 0.12:
+            return self.gen_carry_case(rng)
         if rng.random() < 0.25:
             return self.gen_text_case(rng)
         S = gen_stateful(rng)
@@ -181,6 +236,8 @@ class C07:
     def run(self, case, fresh=False):
         if case.get("kind") == "text":
             return self.run_text(case, fresh)
+        if case.get("kind") == "carry":
+            return self.run_carry(case, fresh)
         if case.get("sweep") and not fresh and not case.get("instr_site") and (getattr(self, "instr", False) or case.get("instr")):
             return self.run_sweep(case)
         S = dataflow.normalise(case["S"])
@@ -372,6 +429,16 @@ class C07:
         return dict(c0, simtape=small), dict(pinned=True, decisions_recorded=len(tape), decisions_kept=len(small), non_default=sum(1 for x in small if x), shrink_runs=runs)
 
     def shrink(self, case):
+        if case.get("kind") == "carry":
+            import coll
+            sc = coll.normalise(case["sc"])
+            for i, w in enumerate(sc["writers"]):
+                for off in sorted(w["script"]):
+                    if len(w["script"]) > (1 if i == 0 else 0):
+                        q = copy.deepcopy(sc)
+                        del q["writers"][i]["script"][off]
+                        yield dict(kind="carry", sc=q)
+            return
         if case.get("kind") == "text":
             for i in range(len(case.get("others", []))):
                 yield dict(case, others=case["others"][:i] + case["others"][i + 1:])
